@@ -125,6 +125,14 @@ def main():
     for o in refuted:
         f = match_finding(findings['findings'], a.prop, o)
         (known if f else new).append((o, f))
+    # an obligation of a known finding that is refuted on one path / variant may stay undecided on another one (a
+    # satisfiable query with quantifiers): reported with the finding, provided the finding was really hit
+    hit = {f['id'] for _, f in known}
+    for o in list(undecided):
+        f = match_finding(findings['findings'], a.prop, o)
+        if f and f['id'] in hit:
+            undecided.remove(o)
+            known.append((o, f))
     os.makedirs(os.path.join(VERIF, 'replays', a.prop), exist_ok=True)
     lines = []
     seen_kf = set()
